@@ -340,7 +340,7 @@ impl Check for C01 {
         std::time::Duration::from_secs(20)
     }
     fn rule(&self) -> String {
-        "choice sequence -> (bytes, chunking, call program, pool none / rayon(2), buffer width setting). Bytes: (a) random strings <= 4 KiB, half of them behind a valid signature; (b) the repository's 60 fuzz_findings files and saved seeds, plain and mutated; (c) valid streams from the jxlref generators (lossless Modular, multi-frame, VarDCT, JPEG transcodes with jbrd/Exif/XMP boxes; bare and container layouts) mutated by bit flips, byte sets, deletions, insertions, splices and truncation (mostly behind the headers), or unmutated. Call program: feed in generated chunks with unconsumed bytes re-offered + try_init, or read(); then a generated sequence over finalize, render_frame(k) (valid and out-of-range k), render_loading_frame, set_image_region (generated rectangles folded into the image), request_color_encoding (8-entry menu), request_icc (own ICC or slices of the input), metadata / ICC / CICP / pixel format / HDR type / frame and offset queries, aux boxes, jpeg_reconstruction_status + reconstruct_jpeg, and on every Render: image_all_channels, image_planar, stream()/stream_no_alpha() into f32/u16/u8 buffers. Allocation limit 128 MiB; renders are skipped for images larger than 65536 (as the project's fuzz harness does). Built with overflow checks and debug assertions. Oracle: no panic, no abnormal worker exit, no confirmed deadline overrun (20 s, 200 s alone); no expectation on Ok/Err. Non-trivial: the image was initialised (headers parsed); distinct by FNV of (bytes, program).".into()
+        "choice sequence -> (bytes, chunking, call program, pool none / rayon(2), buffer width setting). Bytes: (a) random strings <= 4 KiB, half of them behind a valid signature; (b) the repository's 60 fuzz_findings files and saved seeds, plain and mutated; (c) container layouts from C10's generator including its ill-formed variants; (d) valid streams from the jxlref generators (lossless Modular, multi-frame, VarDCT, JPEG transcodes with jbrd/Exif/XMP boxes; bare and container layouts) mutated by bit flips, byte sets, deletions, insertions, splices and truncation (mostly behind the headers), or unmutated. Call program: feed in generated chunks with unconsumed bytes re-offered + try_init, or read(); then a generated sequence over finalize, render_frame(k) (valid and out-of-range k), render_loading_frame, set_image_region (generated rectangles folded into the image), request_color_encoding (8-entry menu), request_icc (own ICC or slices of the input), metadata / ICC / CICP / pixel format / HDR type / frame and offset queries, aux boxes, jpeg_reconstruction_status + reconstruct_jpeg, and on every Render: image_all_channels, image_planar, stream()/stream_no_alpha() into f32/u16/u8 buffers. Allocation limit 128 MiB; renders are skipped for images larger than 65536 (as the project's fuzz harness does). Built with overflow checks and debug assertions. Oracle: no panic, no abnormal worker exit, no confirmed deadline overrun (20 s, 200 s alone); no expectation on Ok/Err. Non-trivial: the image was initialised (headers parsed); distinct by FNV of (bytes, program).".into()
     }
     fn assumptions(&self) -> Vec<String> {
         vec!["only the SIMD paths this CPU selects are executed".into(), "known panic signatures listed in known_findings.json are tolerated in generated cases (counted in known_finding_hits) and strict in the replay tier".into()]
@@ -362,7 +362,7 @@ impl Check for C01 {
             classes.push("src:seed-file".into());
             files.get(i).map(|f| f.1.clone()).unwrap_or_default()
         } else {
-            match src.weighted(&[1, 2, 3, 3, 2]) {
+            match src.weighted(&[1, 2, 3, 3, 2, 1]) {
                 0 => {
                     classes.push("src:random".into());
                     let n = src.range(0, 4096) as usize;
@@ -405,6 +405,16 @@ impl Check for C01 {
                     classes.push(format!("image:{}", c.kind));
                     protect = c.header_len;
                     c.bytes
+                }
+                5 => {
+                    // container layouts of C10's generator (incl. its ill-formed variants) around arbitrary payloads
+                    classes.push("src:container-layout".into());
+                    let l = crate::checks::c10::gen_layout(&mut src);
+                    if let Some(k) = l.illformed {
+                        classes.push(format!("ill:{k}"));
+                    }
+                    protect = 12;
+                    l.file
                 }
                 _ => {
                     classes.push("src:jpeg-transcode".into());
